@@ -17,9 +17,13 @@ META = dict(
           "every Lij equals the fresh-calculator value; refutation witness for the modes of the current source. Modes derived "
           "from the source by ast alias analysis on every run and validated with np.shares_memory; witness replayed; random "
           "histories compared with the model in Coq and with fresh calculators."),
-    note=("Genuine defects on the unchanged tree: c14-alias-L0vv (Lij returns the cached L0vv array itself) and "
-          "c14-regenerate-stale-vectorstars (generate(N) on an existing calculator keeps the old vector stars because "
-          "VectorStarSet.generate returns early on `starset == self.starset`). Trusted: the ast analysis recognises only the "
+    note=("Defects found by this check: c14-alias-L0vv and c14-regenerate-stale-vectorstars (both fixed in /repo), "
+          "c14-cache-key-aliases-input (the vTK cache key keeps references to the caller's bFV/bFT0 arrays: reused input arrays + "
+          "save/load give wrong results). The model also covers a callee that hands out ONE reused buffer for a cached array "
+          "(store modes, derived from GFCrystalcalc.Diffusivity/biascorrection/SetRates by ast and validated with "
+          "np.shares_memory between cache entries): C14_shared_buffer_refuted. The GF calculator's internal state between "
+          "SetRates calls is not modelled: it is covered by the evaluator (crystals with >= 2 omega0 jump types and non-zero "
+          "bias correction, A,B,A,C sequences, every result vs a fresh calculator at 1e-12). Trusted: the ast analysis recognises only the "
           "code shapes listed in harness/c14.py (anything else fails closed); numerics (pure) are outside the model by design; "
           "dict lookup by vTK is modelled as exact-key lookup (bytes hash is compared first). 'generate' means the documented "
           "sequence generate(N); generatematrices(); generatetags()."),
@@ -590,12 +594,12 @@ def run(ck):
                 for msg in aliasing_violations(d, held)[:2]: alog.append((step, msg))
                 ck.case(key=("aba", nm, N, step), nontrivial=step >= 2, kind="ABA:" + nm)
                 if max(diffs) > TOL * max(1.0, max(float(np.abs(y).max()) for y in ref)):
-                    V("a cache hit after other vacancy data were evaluated returns different coefficients than a fresh calculator "
+                    V("Lij returns different coefficients than a fresh calculator after OTHER vacancy data were evaluated on the same calculator "
                       "(call %d of the sequence %s; max |diff| per array %s)" % (step, seq[:step + 1], diffs),
                       {"calculator": nm, "crystal": repr(pool.crys), "cutoff": pool.cut, "Nthermo": N, "sequence(vTK id, other id)": seq[:step + 1],
                        "inputs": {str(k): [x.tolist() for x in pool.input((N, 4), k)] for k in set(seq[:step + 1])}, "diffs": diffs,
                        "aliasing": alog[:4], "store_shares_buffer": {"static": static_sm, "run-time": dyn_sm}, "model": applies},
-                      key="c14-cache-hit-after-other-keys")
+                      key="c14-depends-on-earlier-inputs")
                     if applies == "C14_history":
                         ck.broken_proof = "model says history independent but the A,B,A witness fails on the implementation"
                     break
@@ -706,7 +710,7 @@ def run(ck):
             if not allok:
                 V("history changes Lij results exactly as the cache model with the source's alias modes %s / store modes %s predicts (first bad call: %s)"
                   % (modes, smode, next(j for j, v in enumerate(verd) if not all(v))), rep,
-                  key="c14-alias-L0vv" if applies == "C14_refuted" else "c14-cache-hit-after-other-keys")
+                  key="c14-alias-L0vv" if applies == "C14_refuted" else "c14-depends-on-earlier-inputs")
         else:
             if regen_seen:
                 V("after re-generation the results of a history differ from a fresh calculator (call %d)" % cde, {**rep, "first_differing_call": cde},
